@@ -460,3 +460,26 @@ def integer_grid(draw, su, min_n=1, max_n=6):
         rel.append(float((base + acc) - t0))
     return dict(su, t0=t0, grid_rel=rel)
 
+
+@st.composite
+def parametrise_magnitudes(draw, m, su):
+    """Turn the integer magnitude of 1-2 transfer / death transitions into a parameter that carries the same whole number
+    (the documentation's 'magnitude given by a parameter'), and propose a second parameter vector in which those
+    parameters take other whole numbers 1..3.  Returns (model, setup, theta_alt) or None when nothing qualifies."""
+    import copy
+    m = copy.deepcopy(m)
+    spots = [(i, j) for i, ev in enumerate(m["events"]) for j, tr in enumerate(ev["trans"])
+             if tr["kind"] in ("T", "D") and "int" in tr["mag"]]
+    if not spots:
+        return None
+    chosen = draw(st.lists(st.sampled_from(spots), min_size=1, max_size=min(2, len(spots)), unique=True))
+    theta, theta_alt = list(su["theta"]), list(su["theta"])
+    for n, (i, j) in enumerate(chosen):
+        name = "kmag%d" % (n + 1)
+        k = int(m["events"][i]["trans"][j]["mag"]["int"])
+        m["events"][i]["trans"][j]["mag"] = {"par": name}
+        m["params"] = m["params"] + [name]
+        theta.append(float(k))
+        theta_alt.append(float(draw(st.sampled_from([v for v in (1, 2, 3) if v != k]))))
+    return m, dict(su, theta=theta), theta_alt
+
